@@ -57,6 +57,9 @@ SPACES = {
         # many links over two pairs (the explicit stack / queue grows beyond any small multiple of |V|)
         (dict(nv=3, maxl=8, minl=5, classes=("D",), pairs=[(0, 1), (0, 2)]),
          dict(variants=("Vertex",), unis="all-minus-one", labels="-A")),
+        # the last vertex is a twin of the first (distinct object, same uid)
+        (dict(nv=3, maxl=3, classes=("D", "U"), twin=True),
+         dict(variants=("Vertex",), unis="all-minus-one", labels="-AN")),
     ],
     "thorough": [
         (dict(nv=3, maxl=10, minl=5, classes=("D",), pairs=[(0, 1), (0, 2), (1, 2)]),
